@@ -69,25 +69,25 @@ VAMM_RULE = ("vAMM unit histories on the real contract (mock storage/querier): r
 
 PROPS = {
     "C01": {
-        "lean_modules": ["Perp.Props.C01", "Perp.Props.SatA.VammLift", "Perp.Props.SatA.C01W", "Perp.Props.SatA", "Perp.Props.Capstone", "Perp.Props.MonitorSound"],
+        "lean_modules": ["Perp.Props.C01", "Perp.Props.SatA.VammLift", "Perp.Props.SatA.C01W", "Perp.Props.SatA", "Perp.Props.Capstone", "Perp.Props.MonitorSound", "Perp.Props.CapstoneTx", "Perp.Props.MonitorTxSound"],
         "runs": lambda tier, seed: [vamm_run(tier, seed)] + world_runs(tier, seed),
         "rule": VAMM_RULE,
         "assumptions": COMMON_ASSUMPTIONS + ["the vAMM is driven through its public execute/query entry points on cosmwasm-std mock dependencies"],
     },
     "C15": {
-        "lean_modules": ["Perp.Props.C15", "Perp.Props.EngineGuards", "Perp.Props.C15Band", "Perp.Props.SatTrace", "Perp.Props.SatFlows", "Perp.Props.SatC15", "Perp.Props.SatEWitness", "Perp.Props.SatE", "Perp.Props.C15Requote", "Perp.Props.Capstone", "Perp.Props.MonitorSound"],
+        "lean_modules": ["Perp.Props.C15", "Perp.Props.EngineGuards", "Perp.Props.C15Band", "Perp.Props.SatTrace", "Perp.Props.SatFlows", "Perp.Props.SatC15", "Perp.Props.SatEWitness", "Perp.Props.SatE", "Perp.Props.C15Requote", "Perp.Props.Capstone", "Perp.Props.MonitorSound", "Perp.Props.CapstoneTx", "Perp.Props.MonitorTxSound"],
         "runs": lambda tier, seed: [vamm_run(tier, seed)] + world_runs(tier, seed),
         "rule": VAMM_RULE,
         "assumptions": COMMON_ASSUMPTIONS,
     },
     "C17": {
-        "lean_modules": ["Perp.Props.C17", "Perp.Props.EngineGuards", "Perp.Props.SatTrace", "Perp.Props.SatFlows", "Perp.Props.SatC17", "Perp.Props.SatEWitness", "Perp.Props.SatE", "Perp.Props.Capstone", "Perp.Props.MonitorSound"],
+        "lean_modules": ["Perp.Props.C17", "Perp.Props.EngineGuards", "Perp.Props.SatTrace", "Perp.Props.SatFlows", "Perp.Props.SatC17", "Perp.Props.SatEWitness", "Perp.Props.SatE", "Perp.Props.Capstone", "Perp.Props.MonitorSound", "Perp.Props.CapstoneTx", "Perp.Props.MonitorTxSound"],
         "runs": lambda tier, seed: [vamm_run(tier, seed)] + world_runs(tier, seed),
         "rule": VAMM_RULE + "; for every swap the harness also runs the same swap without a limit on a copy of the state (twin) to separate limit rejections from other rejections",
         "assumptions": COMMON_ASSUMPTIONS,
     },
     "C18": {
-        "lean_modules": ["Perp.Props.C18", "Perp.Props.C18F", "Perp.Props.SatA.VammLift", "Perp.Props.SatA.C18W", "Perp.Props.SatA", "Perp.Props.Capstone", "Perp.Props.MonitorSound", "Perp.Props.C18FRec"],
+        "lean_modules": ["Perp.Props.C18", "Perp.Props.C18F", "Perp.Props.SatA.VammLift", "Perp.Props.SatA.C18W", "Perp.Props.SatA", "Perp.Props.Capstone", "Perp.Props.MonitorSound", "Perp.Props.CapstoneTx", "Perp.Props.MonitorTxSound", "Perp.Props.C18FRec"],
         "runs": lambda tier, seed: [vamm_run(tier, seed), feed_run(tier, seed)] + world_runs(tier, seed),
         "rule": VAMM_RULE + " || price feed unit histories on the real margined_pricefeed: append / append-multiple by owner and strangers with non-decreasing "
                 "timestamps (plus a malformed share: future / out-of-order), GetPrice / GetPreviousPrice{0..7} / GetTwapPrice over intervals 0..1e7, two keys",
@@ -108,79 +108,79 @@ PROPS = {
         "trusted_base": [],
     },
     "C03": {
-        "lean_modules": ["Perp.Props.Dispatch", "Perp.Props.EngineMoney", "Perp.Props.G9Restr", "Perp.Props.G9Perm", "Perp.Props.WorldMore", "Perp.Props.SatA.C10", "Perp.Props.SatA.C03W", "Perp.Props.SatA", "Perp.Props.Capstone", "Perp.Props.MonitorSound", "Perp.Props.CapLedger"],
+        "lean_modules": ["Perp.Props.Dispatch", "Perp.Props.EngineMoney", "Perp.Props.G9Restr", "Perp.Props.G9Perm", "Perp.Props.WorldMore", "Perp.Props.SatA.C10", "Perp.Props.SatA.C03W", "Perp.Props.SatA", "Perp.Props.Capstone", "Perp.Props.MonitorSound", "Perp.Props.CapstoneTx", "Perp.Props.MonitorTxSound", "Perp.Props.CapLedger"],
         "runs": lambda tier, seed: world_runs(tier, seed),
         "rule": WORLD_RULE, "assumptions": WORLD_ASSUMPTIONS,
     },
     "C08": {
-        "lean_modules": ["Perp.Props.Dispatch", "Perp.Props.WorldInv", "Perp.Props.SatA", "Perp.Props.Capstone", "Perp.Props.MonitorSound", "Perp.Props.CapLedger"],
+        "lean_modules": ["Perp.Props.Dispatch", "Perp.Props.WorldInv", "Perp.Props.SatA", "Perp.Props.Capstone", "Perp.Props.MonitorSound", "Perp.Props.CapstoneTx", "Perp.Props.MonitorTxSound", "Perp.Props.CapLedger", "Perp.Props.FaultAtomic"],
         "runs": lambda tier, seed: world_runs(tier, seed) + fault_runs(tier, seed),
         "rule": WORLD_RULE, "assumptions": WORLD_ASSUMPTIONS,
     },
     "C09": {
-        "lean_modules": ["Perp.Props.VammGuards", "Perp.Props.C18F", "Perp.Props.EngineGuards", "Perp.Props.SatF09", "Perp.Props.SatF", "Perp.Props.Capstone", "Perp.Props.MonitorSound", "Perp.Props.CapClose"],
+        "lean_modules": ["Perp.Props.VammGuards", "Perp.Props.C18F", "Perp.Props.EngineGuards", "Perp.Props.SatF09", "Perp.Props.SatF", "Perp.Props.Capstone", "Perp.Props.MonitorSound", "Perp.Props.CapstoneTx", "Perp.Props.MonitorTxSound", "Perp.Props.CapClose"],
         "runs": lambda tier, seed: world_runs(tier, seed) + [vamm_run(tier, seed, 600, 10000), feed_run(tier, seed, 300, 5000)],
         "rule": WORLD_RULE, "assumptions": WORLD_ASSUMPTIONS,
     },
     "C11": {
-        "lean_modules": ["Perp.Props.VammGuards", "Perp.Props.EngineMoney", "Perp.Props.SatTrace", "Perp.Props.SatFlows", "Perp.Props.SatC11", "Perp.Props.SatBuffer", "Perp.Props.SatEWitness", "Perp.Props.SatE", "Perp.Props.Capstone", "Perp.Props.MonitorSound", "Perp.Props.CapClose", "Perp.Props.SatExtra2"],
+        "lean_modules": ["Perp.Props.VammGuards", "Perp.Props.EngineMoney", "Perp.Props.SatTrace", "Perp.Props.SatFlows", "Perp.Props.SatC11", "Perp.Props.SatBuffer", "Perp.Props.SatEWitness", "Perp.Props.SatE", "Perp.Props.Capstone", "Perp.Props.MonitorSound", "Perp.Props.CapstoneTx", "Perp.Props.MonitorTxSound", "Perp.Props.CapClose", "Perp.Props.SatExtra2"],
         "runs": lambda tier, seed: world_runs(tier, seed) + [vamm_run(tier, seed, 600, 10000)],
         "rule": WORLD_RULE, "assumptions": WORLD_ASSUMPTIONS,
     },
     "C14": {
-        "lean_modules": ["Perp.Props.VammGuards", "Perp.Props.EngineGuards", "Perp.Props.WorldInv", "Perp.Props.SatF09", "Perp.Props.SatF14", "Perp.Props.SatF", "Perp.Props.Capstone", "Perp.Props.MonitorSound", "Perp.Props.SatExtra3"],
+        "lean_modules": ["Perp.Props.VammGuards", "Perp.Props.EngineGuards", "Perp.Props.WorldInv", "Perp.Props.SatF09", "Perp.Props.SatF14", "Perp.Props.SatF", "Perp.Props.Capstone", "Perp.Props.MonitorSound", "Perp.Props.CapstoneTx", "Perp.Props.MonitorTxSound", "Perp.Props.SatExtra3"],
         "runs": lambda tier, seed: world_runs(tier, seed) + [vamm_run(tier, seed, 600, 10000)],
         "rule": WORLD_RULE, "assumptions": WORLD_ASSUMPTIONS,
     },
     "C20": {
-        "lean_modules": ["Perp.Props.VammGuards", "Perp.Props.EngineGuards", "Perp.Props.SatCBase", "Perp.Props.SatCFlow", "Perp.Props.SatCCaps", "Perp.Props.SatC", "Perp.Props.Capstone", "Perp.Props.MonitorSound", "Perp.Props.Inst"],
+        "lean_modules": ["Perp.Props.VammGuards", "Perp.Props.EngineGuards", "Perp.Props.SatCBase", "Perp.Props.SatCFlow", "Perp.Props.SatCCaps", "Perp.Props.SatC", "Perp.Props.Capstone", "Perp.Props.MonitorSound", "Perp.Props.CapstoneTx", "Perp.Props.MonitorTxSound", "Perp.Props.Inst", "Perp.Props.DeployOK"],
         "runs": lambda tier, seed: world_runs(tier, seed) + [vamm_run(tier, seed, 600, 10000)],
         "rule": WORLD_RULE, "assumptions": WORLD_ASSUMPTIONS,
     },
     "C02": {
         "lean_modules": ["Perp.Props.EngineMoney", "Perp.Props.Dispatch", "Perp.Props.CurveNoFlip", "Perp.Props.WorldInv",
                          "Perp.Props.Mirror.Sum", "Perp.Props.Mirror.Walk", "Perp.Props.Mirror.Exec", "Perp.Props.Mirror.VammSide",
-                         "Perp.Props.Mirror.Flow", "Perp.Props.Mirror.Run", "Perp.Props.Mirror.Tx", "Perp.Props.MirrorInv", "Perp.Props.SatA.C02W", "Perp.Props.SatA", "Perp.Props.Capstone", "Perp.Props.MonitorSound"],
+                         "Perp.Props.Mirror.Flow", "Perp.Props.Mirror.Run", "Perp.Props.Mirror.Tx", "Perp.Props.MirrorInv", "Perp.Props.SatA.C02W", "Perp.Props.SatA", "Perp.Props.Capstone", "Perp.Props.MonitorSound", "Perp.Props.CapstoneTx", "Perp.Props.MonitorTxSound"],
         "runs": lambda tier, seed: world_runs(tier, seed),
         "rule": WORLD_RULE, "assumptions": WORLD_ASSUMPTIONS,
     },
     "C04": {
-        "lean_modules": ["Perp.Props.EngineMoney", "Perp.Props.TxLog", "Perp.Props.TxMoney", "Perp.Props.TxFlow", "Perp.Props.SatOpen", "Perp.Props.SatClose", "Perp.Props.SatFree", "Perp.Props.SatB", "Perp.Props.Capstone", "Perp.Props.MonitorSound", "Perp.Props.SatExtra"],
+        "lean_modules": ["Perp.Props.EngineMoney", "Perp.Props.TxLog", "Perp.Props.TxMoney", "Perp.Props.TxFlow", "Perp.Props.SatOpen", "Perp.Props.SatClose", "Perp.Props.SatFree", "Perp.Props.SatB", "Perp.Props.Capstone", "Perp.Props.MonitorSound", "Perp.Props.CapstoneTx", "Perp.Props.MonitorTxSound", "Perp.Props.SatExtra"],
         "runs": lambda tier, seed: world_runs(tier, seed),
         "rule": WORLD_RULE, "assumptions": WORLD_ASSUMPTIONS,
     },
     "C05": {
-        "lean_modules": ["Perp.Props.EngineGuards", "Perp.Props.EngineMoney", "Perp.Props.WorldInv", "Perp.Props.SatCBase", "Perp.Props.SatCFlow", "Perp.Props.SatCMargin", "Perp.Props.SatCWallet", "Perp.Props.SatC", "Perp.Props.Capstone", "Perp.Props.MonitorSound"],
+        "lean_modules": ["Perp.Props.EngineGuards", "Perp.Props.EngineMoney", "Perp.Props.WorldInv", "Perp.Props.SatCBase", "Perp.Props.SatCFlow", "Perp.Props.SatCMargin", "Perp.Props.SatCWallet", "Perp.Props.SatC", "Perp.Props.Capstone", "Perp.Props.MonitorSound", "Perp.Props.CapstoneTx", "Perp.Props.MonitorTxSound"],
         "runs": lambda tier, seed: world_runs(tier, seed),
         "rule": WORLD_RULE, "assumptions": WORLD_ASSUMPTIONS,
     },
     "C06": {
-        "lean_modules": ["Perp.Props.EngineMoney", "Perp.Props.EngineGuards", "Perp.Props.CurveNoFlip", "Perp.Props.SatDBase", "Perp.Props.SatDC06", "Perp.Props.SatDWitness", "Perp.Props.SatD", "Perp.Props.Capstone", "Perp.Props.MonitorSound"],
+        "lean_modules": ["Perp.Props.EngineMoney", "Perp.Props.EngineGuards", "Perp.Props.CurveNoFlip", "Perp.Props.SatDBase", "Perp.Props.SatDC06", "Perp.Props.SatDWitness", "Perp.Props.SatD", "Perp.Props.Capstone", "Perp.Props.MonitorSound", "Perp.Props.CapstoneTx", "Perp.Props.MonitorTxSound"],
         "runs": lambda tier, seed: world_runs(tier, seed, q=1200, qn=8) + pump_runs(tier, seed),
         "rule": WORLD_RULE + "; plus three runs biased to the profit-taking / empty-vault / liquidation campaign", "assumptions": WORLD_ASSUMPTIONS,
     },
     "C07": {
-        "lean_modules": ["Perp.Props.LiqTwin", "Perp.Props.EngineGuards", "Perp.Props.SatDBase", "Perp.Props.SatDC07", "Perp.Props.SatDWitness", "Perp.Props.SatD", "Perp.Props.Capstone", "Perp.Props.MonitorSound"],
+        "lean_modules": ["Perp.Props.LiqTwin", "Perp.Props.EngineGuards", "Perp.Props.SatDBase", "Perp.Props.SatDC07", "Perp.Props.SatDWitness", "Perp.Props.SatD", "Perp.Props.Capstone", "Perp.Props.MonitorSound", "Perp.Props.CapstoneTx", "Perp.Props.MonitorTxSound"],
         "runs": lambda tier, seed: world_runs(tier, seed, q=1200, qn=8) + pump_runs(tier, seed),
         "rule": WORLD_RULE + "; plus three runs biased to the profit-taking / empty-vault / liquidation campaign", "assumptions": WORLD_ASSUMPTIONS,
     },
     "C10": {
-        "lean_modules": ["Perp.Props.WorldInv", "Perp.Props.EngineMoney", "Perp.Props.SatA.C10", "Perp.Props.SatA", "Perp.Props.Capstone", "Perp.Props.MonitorSound"],
+        "lean_modules": ["Perp.Props.WorldInv", "Perp.Props.EngineMoney", "Perp.Props.SatA.C10", "Perp.Props.SatA", "Perp.Props.Capstone", "Perp.Props.MonitorSound", "Perp.Props.CapstoneTx", "Perp.Props.MonitorTxSound"],
         "runs": lambda tier, seed: world_runs(tier, seed),
         "rule": WORLD_RULE, "assumptions": WORLD_ASSUMPTIONS,
     },
     "C12": {
-        "lean_modules": ["Perp.Props.EngineGuards", "Perp.Props.EngineMoney", "Perp.Props.TxLog", "Perp.Props.TxMoney", "Perp.Props.TxFlow", "Perp.Props.SatOpen", "Perp.Props.SatClose", "Perp.Props.SatFree", "Perp.Props.SatB", "Perp.Props.Capstone", "Perp.Props.MonitorSound"],
+        "lean_modules": ["Perp.Props.EngineGuards", "Perp.Props.EngineMoney", "Perp.Props.TxLog", "Perp.Props.TxMoney", "Perp.Props.TxFlow", "Perp.Props.SatOpen", "Perp.Props.SatClose", "Perp.Props.SatFree", "Perp.Props.SatB", "Perp.Props.Capstone", "Perp.Props.MonitorSound", "Perp.Props.CapstoneTx", "Perp.Props.MonitorTxSound"],
         "runs": lambda tier, seed: world_runs(tier, seed),
         "rule": WORLD_RULE, "assumptions": WORLD_ASSUMPTIONS,
     },
     "C16": {
-        "lean_modules": ["Perp.Props.EngineGuards", "Perp.Props.WorldInv", "Perp.Props.G9Restr", "Perp.Props.WorldMore", "Perp.Props.SatC", "Perp.Props.Capstone", "Perp.Props.MonitorSound", "Perp.Props.CapClose", "Perp.Props.SatExtra"],
+        "lean_modules": ["Perp.Props.EngineGuards", "Perp.Props.WorldInv", "Perp.Props.G9Restr", "Perp.Props.WorldMore", "Perp.Props.SatC", "Perp.Props.Capstone", "Perp.Props.MonitorSound", "Perp.Props.CapstoneTx", "Perp.Props.MonitorTxSound", "Perp.Props.CapClose", "Perp.Props.SatExtra"],
         "runs": lambda tier, seed: world_runs(tier, seed),
         "rule": WORLD_RULE, "assumptions": WORLD_ASSUMPTIONS,
     },
     "C13": {
-        "lean_modules": ["Perp.Props.LiqTwin", "Perp.Props.SatGTwin", "Perp.Props.SatGDeposit", "Perp.Props.SatGRun", "Perp.Props.SatGLedger", "Perp.Props.SatGOpen", "Perp.Props.SatGClose", "Perp.Props.SatGOpenTx", "Perp.Props.SatGCloseTx", "Perp.Props.SatGWitness", "Perp.Props.SatG", "Perp.Props.SatGReduce", "Perp.Props.SatExtra"],
+        "lean_modules": ["Perp.Props.LiqTwin", "Perp.Props.SatGTwin", "Perp.Props.SatGDeposit", "Perp.Props.SatGRun", "Perp.Props.SatGLedger", "Perp.Props.SatGOpen", "Perp.Props.SatGClose", "Perp.Props.SatGOpenTx", "Perp.Props.SatGCloseTx", "Perp.Props.SatGWitness", "Perp.Props.SatG", "Perp.Props.SatGReduce", "Perp.Props.SatGReverseTx", "Perp.Props.SatGReverse", "Perp.Props.SatExtra"],
         "runs": lambda tier, seed: twin_runs(tier, seed) + world_runs(tier, seed, q=120, qn=2, t=1200, tn=6),
         "rule": WORLD_RULE + " || twin mode: two deployments identical except the collateral (cw20 vs native, 6 decimals) driven in lock-step; each native call attaches exactly what the cw20 run pulled from the caller; after every operation positions, vAMM state, engine state and per-account balance deltas are compared",
         "assumptions": WORLD_ASSUMPTIONS,
